@@ -108,6 +108,9 @@ pub fn check_program(prop: &str, p: &Prog, n: usize, alpha: &[E], svals: &[i32],
     }
     let ev = st.evaluations;
     st.sample(|| json!({"program": p.name, "term": p.desc, "executions": ev}));
+    for v in &st.violations {
+        println!("  violation-key: {}", v.key);
+    }
     st
 }
 
@@ -132,8 +135,11 @@ pub fn run_c28(rep: &mut Report, progs: &[Prog]) {
     rep.bound("trailing_empty_ticks", json!([0, 1, 2]));
     rep.bound("singleton_values", json!([1, 2]));
     rep.bound("programs", progs.len());
+    // heaviest programs (two inputs, singleton values) first: better load balance
+    let mut order: Vec<usize> = (0..progs.len()).collect();
+    order.sort_by_key(|i| (!progs[*i].uses_b, !progs[*i].uses_s));
     let st = par_map(progs.len(), ncpu().min(16), |i| {
-        let p = &progs[i];
+        let p = &progs[order[i]];
         let alpha: &[E] = if thorough && !p.uses_b { &ALPHA4 } else { &ALPHA3 };
         check_program("C28", p, n, alpha, &[1, 2], 2)
     });
